@@ -146,6 +146,52 @@ theorem C02_full (cfg : Searcher.Config) (m : MatcherI) (σ : Script) (inp : Byt
     (⟨inp, script, 0⟩ : Reader).withBomPeek (withBomPeek_noZero _ hz)
   exact this.1
 
+/-- `Core::is_line_by_line_fast` since /repo a2e984b: with a terminator byte other than `\n` (NUL
+under `--null-data`, any `LineTerminator::byte`) the slow path is taken WHATEVER the matcher
+announces (`line_terminator()`, `non_matching_bytes()`). -/
+theorem nonlf_terminator_is_slow (cfg : Searcher.Config) (m : MatcherI) (st : Core)
+    (hlt : cfg.lineTerm.asByte ≠ 10) : isLineByLineFast cfg m st = false := by
+  unfold isLineByLineFast
+  have : (cfg.lineTerm.asByte != 10) = true := by simpa using hlt
+  simp [this]
+
+/-- **C02 for every terminator other than LF, unconditionally in the matcher** (closes findings F17,
+both routes, and F17b): no `LineSafe` hypothesis, no assumption on what the matcher announces — for
+every configuration with binary detection off, EVERY matcher, sink script, input, read script and
+capacity, `ReadByLine::run` makes exactly the callbacks of `SliceByLine::run`. Before a2e984b this
+was false: a matcher announcing the fast path (as `RegexMatcher` does through `non_matching_bytes`
+for `-w`, `-x`, `\A`, or under `-U`) was asked about whole buffers although its anchors are LF-based. -/
+theorem C02_nonlf_terminator (cfg : Searcher.Config) (m : MatcherI) (σ : Script) (hbin : cfg.binary = .none)
+    (hnl : cfg.lineTerm.asByte ≠ 10)
+    (lbcfg : LineBuffer.Config) (hlt : lbcfg.lineterm = cfg.lineTerm.asByte) (hb : lbcfg.binary = .none)
+    (hal : lbcfg.alloc = .eager) (rdr : Reader) (hz : NoZero rdr.script) :
+    (readByLine cfg m σ lbcfg rdr).events = (sliceByLine cfg m σ rdr.data).events ∧
+      (readByLine cfg m σ lbcfg rdr).result = (sliceByLine cfg m σ rdr.data).result :=
+  C02 cfg m σ hbin (nonlf_terminator_is_slow cfg m _ hnl) lbcfg hlt hb hal rdr hz
+
+/-- the same through the strategy selection (`search_reader` vs `search_slice`) -/
+theorem C02_full_nonlf_terminator (cfg : Searcher.Config) (m : MatcherI) (σ : Script) (inp : Bytes)
+    (script : List Step) (cap : Option Nat) (hbin : cfg.binary = .none) (hml : cfg.multiLine = false)
+    (hnl : cfg.lineTerm.asByte ≠ 10) (hz : NoZero script) :
+    (searchReader cfg m σ none cap ⟨inp, script, 0⟩).events = (searchSlice cfg m σ inp).events :=
+  C02_full cfg m σ inp script cap hbin hml (nonlf_terminator_is_slow cfg m _ hnl) hz
+
+/-- ... and for a `multi_line(true)` request the searcher downgrades to line mode (F17's first route,
+`rg -U --null-data` with a pattern that cannot match NUL): whatever matcher made
+`multi_line_with_matcher` answer false, the downgraded search is the slow line-by-line search in
+both strategies. -/
+theorem C02_nonlf_terminator_downgraded (cfg : Searcher.Config) (m : MatcherI) (σ : Script) (inp : Bytes)
+    (script : List Step) (cap : Option Nat) (hbin : cfg.binary = .none)
+    (hmm : multiLineWithMatcher cfg m = false)
+    (hnl : cfg.lineTerm.asByte ≠ 10) (hz : NoZero script) :
+    (searchReader cfg m σ none cap ⟨inp, script, 0⟩).events = (searchSlice cfg m σ inp).events := by
+  unfold searchReader searchSlice
+  simp only [hmm, Bool.false_eq_true, if_false]
+  have := C02 cfg m σ hbin (nonlf_terminator_is_slow cfg m _ hnl) (lineBufferConfig cfg none cap) rfl
+    (by simp [lineBufferConfig, hbin, BinaryDetection.toLB]) (by simp [lineBufferConfig])
+    (⟨inp, script, 0⟩ : Reader).withBomPeek (withBomPeek_noZero _ hz)
+  exact this.1
+
 /-- **C02 under a heap limit** (`--dfa-size-limit`-independent `heap_limit` of the searcher: the roll
 buffer may not grow beyond `limit`): the same statement as `C02_full` for EVERY allocation policy
 `Config::line_buffer` can build -- either `search_reader` makes exactly the callbacks of
@@ -285,6 +331,23 @@ example :
            .context .after (some 5) 8 [100, 10], .contextBreak, .context .before (some 7) 12 [102, 10],
            .matched (some 8) 14 [120, 10], .finish 16 none] := by
   refine ⟨rfl, by decide, by decide⟩
+
+/-- Non-vacuity of `C02_nonlf_terminator` (the F17 situation): NUL-terminated records, a matcher
+that is haystack-anchored (`\\Aa`: an `a` only at the very start of what it is shown), reports no line
+terminator and claims it never matches NUL -- as `RegexMatcher` does for `-w` / `\\A` patterns. The
+slow path is taken; reader (capacity 1, 1-byte reads) and slice searcher both find the record `a`
+behind the record `b`, which a whole-buffer search from a window starting at `b` would miss. -/
+example :
+    let cfg : Searcher.Config := { lineTerm := .byte 0 }
+    let m : MatcherI := { MatcherI.ofFindAt (fun h at_ =>
+      if at_ == 0 && h.head? == some 97 then some ⟨0, 1⟩ else none) with
+        lineTerminator := none, nonMatchingBytes := some (fun b => b == 0) }
+    let inp : Bytes := [98, 0, 97, 0]
+    cfg.lineTerm.asByte ≠ 10 ∧ isLineByLineFast cfg m (Core.new cfg true) = false ∧
+      (readByLine cfg m allCont ⟨1, 0, .eager, .none⟩ ⟨inp, [.ret 1], 0⟩).events
+        = (sliceByLine cfg m allCont inp).events ∧
+      (sliceByLine cfg m allCont inp).events = [.begin, .matched (some 2) 2 [97, 0], .finish 4 none] := by
+  refine ⟨by decide, by decide, by decide, by decide⟩
 
 /-- Non-vacuity of `C02_heap_limit`: heap limit 4 (capacity 4, no growth), `-A1`: the 7-byte line does
 not fit, the reader fails with the allocation error after `begin`, the match and its after-context
